@@ -26,6 +26,7 @@ type Config struct {
 	MapOrderFns   map[string]bool // functions in which map range order is nondeterministic
 	SymbolicLen   bool            // vpNondetString keeps a symbolic length instead of forking
 	TimeoutS      int             // wall-clock budget of one harness run
+	Races         bool            // log heap accesses of goroutines and report unsynchronised conflicting ones (goroutines.go)
 	TickingClock  bool            // with FixedClock: every reading is one microsecond later than the previous one
 	FixedClock    bool            // time.Now returns one fixed instant (harnesses whose logic depends on the clock only through offsets they choose)
 }
@@ -62,6 +63,8 @@ type Engine struct {
 	stats         Stats
 	rep           *Report
 	stack         []*ssa.Function
+	curGo, curGoMark, racesFound int
+	raceSeen      map[string]bool
 	stubs         map[string]*ssa.Function
 	config        map[string]string
 	typeIDs       map[string]int
